@@ -749,7 +749,7 @@ func (ServicesData) analyze(httpSvc *expr.HTTPServiceExpr) *ServiceData {
 					case "query":
 						qsch = qsch.Append(s)
 					case "header":
-						hsch = hsch.Append(s)
+						hsch = hsch.AppendCred(s)
 					default:
 						bosch = bosch.Append(s)
 					}
